@@ -18,10 +18,12 @@ from vlib import Ctx, Inconclusive, finish
 
 import props_lex
 import props_prog
+import props_expr
 
 REGISTRY = {}
 REGISTRY.update(props_lex.CHECKS)
 REGISTRY.update(props_prog.CHECKS)
+REGISTRY.update(props_expr.CHECKS)
 
 
 def replay_fn(ctx, path):
